@@ -23,6 +23,8 @@ FIBRE_SPACE = {
     'slope': [None, 60.0],
     'nl': ['area83', 'area50', 'gamma1.3', 'gamma2.0'],
     'con_in': [0.0, 0.5],
+    'att_in': [0.0, 2.0],
+    'kind': ['Fiber', 'RamanFiber'],      # a RamanFiber without pumps, Raman computation off: the same closed form
     'loss_table': [False, True],
     'sim': ['plain', 'computed_channels', 'computed_number', 'raman_off_explicit'],
 }
@@ -30,12 +32,15 @@ FIBRE_SPACE = {
 
 def fibre_json(fc):
     p = {'length': fc['length'], 'length_units': 'km', 'loss_coef': fc['loss'], 'con_in': fc['con_in'], 'con_out': 0.3,
-         'att_in': 0.0}
+         'att_in': fc.get('att_in', 0.0)}
     if fc['slope'] is not None:
         p['dispersion_slope'] = fc['slope']      # read from the element parameters (the library entry ignores it)
     if fc['loss_table']:
         p['loss_coef'] = {'value': [fc['loss'] + 0.02, fc['loss'], fc['loss'] + 0.01],
                           'frequency': [186e12, 193.4e12, 198e12]}
+    if fc.get('kind') == 'RamanFiber':
+        return {'type': 'RamanFiber', 'type_variety': 'F', 'params': p,
+                'operational': {'temperature': 283, 'raman_pumps': []}}
     return {'type': 'Fiber', 'type_variety': 'F', 'params': p}
 
 
@@ -49,6 +54,7 @@ def library(fc):
     else:
         ent['gamma'] = float(fc['nl'][5:]) * 1e-3
     eq['Fiber'] = [ent, {'type_variety': 'SSMF', 'dispersion': 1.67e-05, 'effective_area': 83e-12, 'pmd_coef': 1.265e-15}]
+    eq['RamanFiber'] = [dict(ent)]
     return eq
 
 
@@ -56,7 +62,7 @@ def make_fibre(fc):
     equipment = c.make_equipment(library(fc))
     topo = c.build_topology(['A', 'B'], [('A', 'B', [fibre_json(fc)], None)])
     net = c.load_network(topo, equipment)
-    fib = c.node(net, 'A>B:0:Fiber')
+    fib = c.node(net, 'A>B:0:' + fc.get('kind', 'Fiber'))
     fib.ref_pch_in_dbm = 0.0
     return fib
 
@@ -253,11 +259,12 @@ def run_case(case):
                 break
         # Fiber.__call__: NLI share afterwards = NLI computed on the spectrum after the input connector / pad
         si2 = make_si(cb)
-        pre = si2.pch * 10 ** (-(fc['con_in'] + 0.0) / 10)
+        loss_in = fc['con_in'] + fc.get('att_in', 0.0)
+        pre = si2.pch * 10 ** (-loss_in / 10)
         res = fib(make_si(cb))
         transitions += 1
-        exp_share_lo = np.array(lo) * 10 ** (-3 * fc['con_in'] / 10) / pre
-        exp_share_hi = np.array(hi) * 10 ** (-3 * fc['con_in'] / 10) / pre
+        exp_share_lo = np.array(lo) * 10 ** (-3 * loss_in / 10) / pre
+        exp_share_hi = np.array(hi) * 10 ** (-3 * loss_in / 10) / pre
         got = res._nli_ratio
         if ((got < exp_share_lo * (1 - 1e-9)) | (got > exp_share_hi * (1 + 1e-9))).any():
             v('fiber-call-nli-share', f'{where}: NLI share after Fiber.__call__ {got.tolist()} outside '
